@@ -156,8 +156,6 @@ def create_spend_transaction(
                 # presumably broadcast) but which haven't made it into the chain yet.
                 continue
 
-            wallet.spent_transaction_outputs.add(output_reference)
-
             inputs.append(Input(output_reference, None))
 
             collected_value += unspent_transaction_outs[output_reference].value
@@ -171,7 +169,14 @@ def create_spend_transaction(
                         change_address,
                     ))
 
-                return sign_transaction(wallet, unspent_transaction_outs, Transaction(inputs, outputs))
+                transaction = sign_transaction(wallet, unspent_transaction_outs, Transaction(inputs, outputs))
+
+                # only now that the spend is known to succeed do we record its outputs as spent; a failed attempt
+                # ("Insufficient balance") must not make the outputs it looked at unavailable to later spends.
+                for input in inputs:
+                    wallet.spent_transaction_outputs.add(input.output_reference)
+
+                return transaction
 
     raise Exception("Insufficient balance")
 
